@@ -135,6 +135,8 @@ class TriggerHandler:
         self._config = config
         self._config.add_listener(TracepointHandlerUpdateListener(self))
         self._callbacks: ThreadLocal[Deque[CallbackContext]] = ThreadLocal(self.__new_pending)
+        # per thread: the f_locals mappings python has built for us at the last hit (see __release_locals)
+        self.__read_locals = threading.local()
 
     def __no_trace(self) -> bool:
         # the setting is text when it comes from the environment: 'false' is not 'disabled'
@@ -302,6 +304,12 @@ class TriggerHandler:
         :param arg: the args
         :return: None to ignore other calls, or our self to continue
         """
+        try:
+            if self.__read_locals.__dict__:
+                self.__release_locals(frame, event)
+        except BaseException:
+            # (no room left to make a call, close to the recursion limit: at the next event then)
+            pass
         if self.__shutdown and not self._callbacks.is_set:
             return self.__leave_thread(frame)
         # (after shutdown we are still called for what this thread has pending - spans to close, deferred snapshots -
@@ -394,7 +402,66 @@ class TriggerHandler:
         if any(action.condition or action.action_type != LocationAction.ActionType.Span for action in actions):
             # (these look at the variables of the frame: a span alone does not, and is not made to)
             self.__refresh_locals(frame)
+            self.__remember_locals(frame, any(
+                action.action_type == LocationAction.ActionType.Snapshot for action in actions))
         return self.trace_call
+
+    def __remember_locals(self, frame: FrameType, with_callers: bool):
+        try:
+            read, of_callers = [], {}
+            current = frame
+            while current is not None:
+                if current.f_code.co_flags & 0x1:
+                    # (CO_OPTIMIZED: a function. For a module or a class body f_locals is the namespace itself.)
+                    read.append((id(current), current.f_locals))
+                    if current is not frame:
+                        of_callers[id(current)] = True
+                current = current.f_back if with_callers else None
+            self.__read_locals.read = read
+            if of_callers:
+                self.__read_locals.of_callers = of_callers
+        except BaseException:
+            pass
+
+    def __release_locals(self, frame: Optional[FrameType], event: Optional[str] = None):
+        """
+        Empty the f_locals mappings python has built for us at the previous event of this thread.
+
+        Up to python 3.12 reading frame.f_locals leaves a dict on the frame that refers to every variable until the
+        function returns: what the application deletes or rebinds afterwards is not released (a file is not closed,
+        a weakref callback does not run). While we handle the hit the mapping must be complete (python writes it back
+        into the frame when we return); at the next event it is nobody's any more - unless the application holds it
+        too (locals()): then it is left alone. The mapping of the frame this event is for is filled again (python may
+        write it back once more: always after an event of a calling function whose variables we have read), and
+        emptied at the next event.
+
+        :param frame: the frame of this event (None: there is none, we are leaving)
+        :param event: the event
+        """
+        try:
+            state = self.__read_locals.__dict__
+            read = state.pop('read', None) or []
+            of_callers = state.get('of_callers')
+            again = False
+            while read:
+                owner, mapping = read.pop()
+                if type(mapping) is dict and sys.getrefcount(mapping) <= 3:
+                    mapping.clear()
+                if frame is not None and owner == id(frame):
+                    again = True
+                del mapping
+            if of_callers is not None and frame is not None and of_callers.pop(id(frame), None):
+                again = True
+            if of_callers is not None and (not of_callers or frame is None):
+                state.pop('of_callers', None)
+            if again and frame.f_code.co_flags & 0x1:
+                mapping = frame.f_locals
+                if event != 'return':
+                    # (a function that returns releases its variables by itself, and before its caller goes on: we
+                    # are not to hold them until the next event)
+                    self.__read_locals.read = [(id(frame), mapping)]
+        except BaseException:
+            pass
 
     @staticmethod
     def __refresh_locals(frame: FrameType):
@@ -517,6 +584,7 @@ class TriggerHandler:
         if self.__thread_hook() == self.trace_call:
             threading.settrace(self.__put_back(self.__old_thread_trace, for_new_threads=True))
         self.__release_running_calls()
+        self.__release_locals(None)
 
     def __release_running_calls(self):
         """Take our function off the calls in progress (see __trace_running_calls), unless we wait for their end."""
